@@ -23,57 +23,76 @@ NOISE = Fraction(1, 2 ** 40)
 
 EXPLANATION = (
     "(a) The real JacobianWrapper is called on maps whose coefficients AND evaluation point are solver variables: affine maps "
-    "f(y') = F + A.(y' - y) (F = f(y), A arbitrary, non-square / non-symmetric shapes (2,)->(2,), (3,)->(2,), (2,2)->(3,), "
-    "scalar->scalar) and polynomial maps given by their Taylor coefficients at y (degree <= 4 for base order 4, 5; degree <= 3 "
-    "for base order 2 with >= 3 Richardson levels), adaptive=True (default Richardson depth) and adaptive=False with a fixed "
-    "depth, flat=False and flat=True, base order 2, 4, 5.  Every branch on a symbolic value (|y_j| > 1, dy > |y_j| > 0 per "
-    "level and component, the two convergence tests of the adaptive loop per level) forks; on every feasible path z3 is asked, "
-    "per entry, for (A, F, y) with |J[i..., j...] - A_ij| * d_j > 2^-40 * (|A_ij| * d_j + |F_i|) (d_j = smallest perturbation "
-    "the code applied to input j), i.e. the result is the derivative of output i with respect to input j up to the rounding "
-    "noise of the precomputed float64 stencil weights; for base order 2 (weights -1/2, 1/2 are exact) equality is exact.  The "
-    "returned shape must be (*shape(f), *shape(y)) (flat: (size f, size y), scalar for 1x1).  Every recorded evaluation of f "
-    "must perturb at most one input component.  "
-    "(b) The real DiffRHS is driven through every operation history of the stated length over {jac(t_k, y_k) with fresh "
-    "symbolic t_k, y_k; hook_jacobian_call(fn_k); unhook_jacobian_call(); rhs.jac = fn_k; set_jac_base_order(4)} (the "
-    "instance fixes a prefix, the remaining operations are chosen by solver variables so that each history is a set of "
-    "paths), wrapped rhs f(t, y) = (A0 + t*A1).y with symbolic A0, A1, with and without a user `jac` attribute.  After every "
-    "request: a user Jacobian attached by attribute, hook or assignment must have been called exactly once with (t_k, y_k) "
-    "and its result returned unchanged; otherwise the result must have shape (n, n) and entry [i, j] equal to (A0 + t_k*A1)_ij "
-    "for the REQUESTED t_k (same bound as in (a)), every evaluation of f made by the request must be at time t_k and at a "
-    "state that differs from y_k in at most one component, and njev must equal the number of requests answered.")
+    "f(y') = F + A.(y' - y) (F = f(y) and A arbitrary; shapes scalar->scalar, (2,)->(2,), (3,)->(2,), (2,2)->(3,), i.e. "
+    "non-square and non-symmetric, so a transposed layout is visible) and polynomial maps given by their Taylor coefficients at y "
+    "(1-2 variables, degree <= 4 for base order 4 and 5, degree <= 2 for base order 2, degree 3 for base order 2 with >= 3 "
+    "Richardson levels), with adaptive=True (default depth) and adaptive=False (fixed richardson_iter), flat=False and flat=True, "
+    "base order 2, 4, 5.  The stencil weights are the real ones (float64 solve executed natively, lifted to exact rationals).  "
+    "Every branch on a symbolic value forks (|y_j| > 1 and dy > |y_j| > 0 per level and component in the non-adaptive branch, "
+    "the two convergence tests per level of the adaptive loop); on every feasible path z3 is asked, per entry, for (A, F, y) with "
+    "|J[i..., j...] - A_ij| * d_j > 2^-40 * (|A_ij| * d_j + |F_i|) (d_j = smallest perturbation the code applied to input j, read "
+    "from the recorded calls): unsat means the entry is the derivative of output i with respect to input j up to the rounding "
+    "noise of the float64 stencil weights, for ALL real A, F, y of the path; for base order 2 (weights -1/2, 1/2 exact) exact "
+    "equality is decided.  The returned shape must be (*shape(f), *shape(y)) (flat: (size f, size y), a scalar for 1x1), the "
+    "flat result must be entrywise the flat=False result, and every recorded evaluation of f must perturb at most one input.  "
+    "(b) The real DiffRHS is driven through EVERY operation history of the stated length over {J: jac(t_k, y_k) with fresh "
+    "symbolic t_k (and y_k), H: hook_jacobian_call(fn_k), U: unhook_jacobian_call(), A: rhs.jac = fn_k, B: "
+    "set_jac_base_order(4), thorough also C: set_jac_base_order(2)}; the instance fixes the first operation(s), the others are "
+    "chosen by solver variables, so each history is a set of paths.  Wrapped rhs: a class instance f(t, y) = (A0 + t*A1).y with "
+    "symbolic A0, A1, with and without a user `jac` attribute.  After every request: a user Jacobian attached by attribute, hook "
+    "or assignment (latest hook/assignment first, the attribute after an unhook) must have been called exactly once with "
+    "(t_k, y_k) and its result returned unchanged and no other user Jacobian called; otherwise the result must have shape (n, n) "
+    "with entry [i, j] equal to (A0 + t_k*A1)_ij for the REQUESTED t_k (bound as in (a)), every evaluation of f made by the "
+    "request must be at time t_k and at a state differing from y_k in at most one component (one of them at y_k itself), and "
+    "njev must equal the number of requests answered.  Equal and different times of consecutive requests are both explored "
+    "(the code's `t != jac_time` test forks).")
 ASSUMPTIONS = [
-    "real arithmetic over the exact rational values of all float64 constants (weights, nodes, step sizes 0.5*4^-m, tolerances); "
-    "IEEE rounding of the function evaluations themselves (the eps*|f|/h cancellation error of any finite difference) is outside",
-    "the precomputed stencil weights w_k (float64 linear solve, executed natively) satisfy |sum_k w_k node_k^p - [p == 1]| <= 2^%d "
-    "for p = 0..4 (base order 4, 5) and exactly for p = 0..2 (base order 2); this is re-measured from the real weights and "
-    "asserted on every path (check c16.stencil.moments); measured: |sum w| = 8.3e-17, |sum w*node - 1| = 1.6e-16" % MEASURED_LOG2,
-    "agreement is asserted as |J_ij - A_ij| * d_j <= 2^%d * (|A_ij| * d_j + |F_i|) for base order 4, 5 (d_j = smallest "
-    "perturbation applied to component j, read from the recorded calls; the term |F_i|/d_j is the amplified sum(w) != 0 noise; "
-    "Richardson combination weights sum to 1 with absolute sum <= 1.15) and as exact equality for base order 2; polynomial maps: "
-    "2^%d * (|T_0| + d_j*(|T_1| + sum_{k>=2} |T_k| (3*dmax_j)^(k-1)))" % (NOISE_LOG2, NOISE_LOG2),
+    "real arithmetic over the exact rational values of all float64 constants (stencil weights and nodes, step sizes 0.5*4^-m, "
+    "sqrt(eps), tolerances 4*eps); the IEEE rounding of the function evaluations and difference quotients is not modelled",
+    "the stencil weights are those returned by the real get_finite_difference_weights (float64 linear solve): their moments "
+    "sum_k w_k node_k^p are 0/1 only up to ~1e-16 (measured |sum w| = 8.3e-17, |sum w*node - 1| = 1.6e-16 for base order 4, 5; "
+    "exact for base order 2); every path first checks |moment_p - [p == 1]| <= 2^%d (c16.stencil.moments)" % MEASURED_LOG2,
+    "'agrees to rounding' is therefore decided as |J_ij - A_ij| * d_j <= 2^%d * (|A_ij| * d_j + |F_i|) for base order 4, 5 (the "
+    "term |F_i| / d_j is the sum(w) != 0 noise amplified by the step) and as exact equality for base order 2; polynomial maps: "
+    "<= 2^%d * (|T_0| + d_j * (|T_1| + sum_{k>=2} |T_k| * (3*dmax_j)^(k-1))), T_k the Taylor coefficients in direction j, "
+    "dmax_j the largest perturbation of input j" % (NOISE_LOG2, NOISE_LOG2),
     "affine / polynomial maps are parametrised by their Taylor coefficients at the evaluation point (F = f(y), A = f'(y), ...): "
-    "as y and the coefficients range over all reals this covers every affine / polynomial map and every evaluation point",
-    "user Jacobian functions in (b) return fresh symbols per call (arbitrary matrices)",
+    "as y and the coefficients range over all reals this is every affine / polynomial map at every evaluation point",
+    "cubic maps with base order 2 and adaptive=False: each y_j is 0 or |y_j| >= 1/2, so that all levels use the same kind of "
+    "step (see OUTSIDE)",
+    "(b): user Jacobian functions return fresh symbols per call (arbitrary matrices); histories with a 2-dimensional state request "
+    "the Jacobian at the zero state (they decide layout, time and dispatch; a non-zero 2-d state makes the convergence tests of "
+    "the adaptive loop too hard for the solver: > 10 s per query), the state handling is decided by the 1-dimensional histories "
+    "with symbolic y_k",
 ]
 BOUNDS = {
     "quick": dict(affine_shapes=["()->()", "(2,)->(2,)", "(3,)->(2,)", "(2,2)->(3,)"], base_orders=[2, 4, 5],
-                  adaptive="default depth; Jacobians with <= 6 entries", fixed_depth="richardson_iter 0..3 (1 for 12 entries)",
-                  polynomials="1 variable, degree <= 4", history_length=3, history_state_shapes=["(1,)", "(2,)"]),
+                  adaptive="default depth (16 - base_order levels); shapes with <= 6 Jacobian entries",
+                  fixed_depth="richardson_iter 0, 1, 3 (scalar), 0, 3 ((2,)), 2 ((3,)), 1 ((2,2))",
+                  polynomials="1 variable, degree <= 4", history_length=3, history_alphabet="J H U A B",
+                  history_states=["(1,) symbolic", "(2,) zero state"]),
     "thorough": dict(affine_shapes=["()->()", "(2,)->(2,)", "(3,)->(2,)", "(2,2)->(3,)"], base_orders=[2, 4, 5],
-                     adaptive="default depth; all shapes", fixed_depth="richardson_iter 0..4 (2 for 12 entries)",
-                     polynomials="1 and 2 variables, degree <= 4", history_length=4, history_state_shapes=["(1,)", "(2,)"]),
+                     adaptive="default depth; all shapes",
+                     fixed_depth="richardson_iter 0..4 and default (scalar), 0, 1, 3, 4 ((2,)), 1, 3 ((3,)), 1, 2 ((2,2))",
+                     polynomials="1 and 2 variables, degree <= 4", history_length=4, history_alphabet="J H U A B C",
+                     history_states=["(1,) symbolic", "(2,) zero state"]),
 }
 OUTSIDE = [
-    "accuracy on non-polynomial smooth functions / polynomials of degree above the stencil's exactness 'near the requested "
-    "tolerance' (rounding dominated, no useful real-arithmetic model)",
-    "IEEE cancellation error eps*|f|/h of the difference quotients (grows to ~1e-8 relative at the deepest default level)",
+    "accuracy 'near the requested tolerance' on non-polynomial smooth functions and on polynomials of degree above the stencil's "
+    "exactness (rounding dominated, no useful real-arithmetic model)",
+    "IEEE cancellation error eps*|f|/h of the difference quotients (about 1e-8 relative at the deepest default level h = 0.5*4^-13)",
+    "adaptive=False with components 0 < |y_j| < 1/2: the levels then mix relative steps dy_m*y_j and absolute steps dy_m, the step "
+    "sequence is not geometric and the extrapolation does not cancel the leading error term (observed, not a registered finding: "
+    "f = -(y' - y)^3 + const, base_order 2, richardson_iter 3, y = -1/16 returns -1.04e-3 for the derivative 0); exactness of the "
+    "base stencil is unaffected and is decided on those paths",
     "torch backend (torch.func.jacrev branch of DiffRHS.jac)", "nfev bookkeeping of the finite-difference evaluations (C20)",
-    "DiffRHS.__copy__/__deepcopy__",
+    "DiffRHS.__copy__/__deepcopy__, set_jac_base_order before the first request (silently ignored by the code)",
 ]
 
 K_UNHOOK = "c16.unhook_then_jac_calls_none"
 K_BASEORDER = "c16.set_jac_base_order_flat_wrapper"
 
+# J: jac(t_k, y_k), H: hook_jacobian_call(fn_k), U: unhook_jacobian_call(), A: rhs.jac = fn_k, B / C: set_jac_base_order(4 / 2)
 HIST_OPS = ["J", "H", "U", "A", "B"]
 
 
@@ -97,7 +116,7 @@ def instances(tier):
                                 bo=bo, adaptive=True, riter=None, budget=dict(wall_s=80 if quick else 600, max_paths=400)))
             # fixed depth
             if n == 1:
-                depths = [0, 1, 3] if quick else [0, 1, 2, 3, 4]
+                depths = [0, 1, 3] if quick else [0, 1, 2, 3, 4, None]      # None: the default depth 16 - base_order
             elif n == 2:
                 depths = [0, 3] if quick else [0, 1, 3, 4]
             elif n == 3:
@@ -105,7 +124,7 @@ def instances(tier):
             else:
                 depths = [1] if quick else [1, 2]
             for r in depths:
-                out.append(dict(id="affine-%s-to-%s-bo%d-fixed%d" % (_tag(sin), _tag(sout), bo, r), kind="affine", sin=list(sin), sout=list(sout),
+                out.append(dict(id="affine-%s-to-%s-bo%d-fixed%s" % (_tag(sin), _tag(sout), bo, "default" if r is None else r), kind="affine", sin=list(sin), sout=list(sout),
                                 bo=bo, adaptive=False, riter=r, budget=dict(wall_s=80 if quick else 600, max_paths=4000)))
     # polynomial maps
     polys = []
@@ -131,11 +150,12 @@ def instances(tier):
     # operation histories on DiffRHS: the instance fixes the first operation(s), the rest is chosen by solver variables
     L = 3 if quick else 4
     plen = 1 if quick else 2
+    ops = HIST_OPS if quick else HIST_OPS + ["C"]
     for attr in (0, 1):
         for dim in (1, 2):
-            for pre in itertools.product(HIST_OPS, repeat=plen):
+            for pre in itertools.product(ops, repeat=plen):
                 out.append(dict(id="hist-%s-dim%d-%s" % ("attr" if attr else "noattr", dim, "".join(pre)), kind="hist", attr=bool(attr), dim=dim,
-                                prefix="".join(pre), length=L, budget=dict(wall_s=80 if quick else 600, max_paths=20000)))
+                                prefix="".join(pre), length=L, ops="".join(ops), budget=dict(wall_s=80 if quick else 600, max_paths=20000)))
     return out
 
 
@@ -356,7 +376,7 @@ def _scen_affine(c, inst):
 def _scen_poly(c, inst):
     from desolver.utilities import utilities as U
     nv, deg, bo = inst["nvar"], inst["deg"], inst["bo"]
-    m = 1 if nv == 1 else 2
+    m = 1          # one output: layout is decided by the affine instances, here the cross terms T_ab (a, b >= 1) matter
     # exactness: moments 0..deg must be (nearly) right, except that Richardson removes the h^2 term for base order 2 / degree 3
     ok, noise = _noise_for(bo, min(deg, 2) if bo == 2 else deg)
     c.check("c16.stencil.moments", ok, info=dict(base_order=bo))
@@ -484,8 +504,9 @@ def _scen_hist(c, inst):
         return
     noise = max(noise, noise4)
     ops = list(prefix)
+    alphabet = inst["ops"]
     for k in range(len(prefix), L):
-        ops.append(HIST_OPS[_choose(c, "op%d" % k, len(HIST_OPS))])
+        ops.append(alphabet[_choose(c, "op%d" % k, len(alphabet))])
     c.note("history", "".join(ops))
     A0 = [[c.real("A0_%d_%d" % (i, k)) for k in range(n)] for i in range(n)]
     A1 = [[c.real("A1_%d_%d" % (i, k)) for k in range(n)] for i in range(n)]
@@ -530,8 +551,8 @@ def _scen_hist(c, inst):
             if requests_made > 0:
                 unhook_pending = True
             continue
-        if op == "B":
-            st, r = run(rhs.set_jac_base_order, 4)
+        if op in ("B", "C"):
+            st, r = run(rhs.set_jac_base_order, 4 if op == "B" else 2)
             c.check(P + "set_base_order_returns", st == "ok", info=dict(pos=k, err=repr(r)))
             if fd_mode:
                 base_order_pending = True
